@@ -1,10 +1,12 @@
 use crate::report::Ctx;
 pub mod c07;
+pub mod c08;
 pub mod c09;
 
 pub fn lookup(name: &str) -> Option<fn(&mut Ctx)> {
     match name {
         "C07" => Some(c07::run),
+        "C08" => Some(c08::run),
         "C09" => Some(c09::run),
         _ => None,
     }
